@@ -526,6 +526,53 @@ func c02ScriptCase(c *Ctx, i int, r *rand.Rand) {
 				advance(time.Duration(r.IntN(2500)) * time.Millisecond)
 			}
 		}
+		if kind == "rb" && meterMode == "scripted" && len(model) > 0 {
+			// still stretch: the clock stands still and every server is rated alike, so after one warm-up request (which may
+			// be the one weight adjustment that is due) nothing is due any more; within two rotations of the weights then in
+			// force every member with a positive weight must have been selected
+			t.mmu.Lock()
+			for _, m := range t.meters {
+				m.set(0, true)
+			}
+			t.mmu.Unlock()
+			t.serve(httptest.NewRecorder(), httptest.NewRequest("GET", "http://client.test/", nil))
+			eff := func() (map[string]int, int) {
+				ws, g, sum := map[string]int{}, 0, 0
+				for _, id := range c02Identities {
+					u := mustURL(id)
+					if mw := model[urlKey(u)]; mw > 0 {
+						if w, ok := t.rr.ServerWeight(u); ok && w > 0 {
+							ws[urlKey(u)] = w
+							g = gcdInt(g, w)
+							sum += w
+						}
+					}
+				}
+				if g == 0 {
+					return ws, 0
+				}
+				return ws, sum / g
+			}
+			ws, W := eff()
+			if W > 0 && W <= 3000 {
+				seen := map[string]int{}
+				for q := 0; q < 2*W; q++ {
+					t.serve(httptest.NewRecorder(), httptest.NewRequest("GET", "http://client.test/", nil))
+					seen[lastKey.Load().(string)]++
+				}
+				ws2, _ := eff()
+				if sfmt("%v", ws) == sfmt("%v", ws2) {
+					c.Count("still_stretches_checked", 1)
+					for k, w := range ws {
+						if seen[k] == 0 {
+							script = append(script, "still-stretch")
+							fail("route/not-within-rotation", sfmt("clock standing still, all servers rated alike, effective weights %v (one rotation = %d requests): member %s has weight %d but received none of %d consecutive requests (%v)", ws, W, k, w, 2*W, seen))
+							return
+						}
+					}
+				}
+			}
+		}
 		c.Eval()
 		if removedPresent && requestsAfterRemoval > 0 {
 			c.Nontrivial(sfmt("%s/%s/%x", kind, meterMode, hash64(strings.Join(script, ";"))))
